@@ -67,4 +67,19 @@ theorem root_modules_in_scope :
 theorem marshal_paths_reviewed : Risor.Generated.C05.marshalPaths = marshalPathsReviewed := by
   decide
 
+set_option maxRecDepth 16384 in
+/-- the hash keys: the `HashKey()` method of every type that can be a member of a set is what was
+    reviewed — one `HashKey` literal built from the type name and the value itself (the model's
+    `HV.key`).  A method that starts hashing, truncating, or reading package-level state (a seed),
+    a new hashable type or a removed one breaks this lemma. -/
+theorem hash_keys_reviewed : Risor.Generated.C05.hashKeys = hashKeysReviewed := by
+  decide
+
+set_option maxRecDepth 16384 in
+/-- the choosing loop of `VirtualOS.findMount` is the loop that was read against the model's
+    `selStep`: exact match returns, a qualifying mount point replaces the candidate only when it is
+    longer than the candidate -/
+theorem find_mount_loop_reviewed : Risor.Generated.C05.findMountLoops = findMountLoopsReviewed := by
+  decide
+
 end Risor.C05
